@@ -323,5 +323,29 @@ func jobC14(c *rt.Ctx) {
 				fail("GenerateKey's public key aliases its private key")
 			}
 		}
+		// every returned slice is the caller's up to its CAPACITY (append writes there): overwriting the
+		// spare capacity of one result must leave every other result, the key and the seed untouched
+		pub6, priv6, _ := GenerateKey(bytes.NewReader(append([]byte{}, seed...)))
+		k6 := NewKeyFromSeed(seed)
+		p6 := k6.Public().(PublicKey)
+		s6 := k6.Seed()
+		results := [][]byte{pub6, priv6, k6, p6, s6}
+		names := []string{"GenerateKey public key", "GenerateKey private key", "NewKeyFromSeed result", "Public() result", "Seed() result"}
+		wantFull := [][]byte{snap[32:], snap, snap, snap[32:], seed}
+		for ri := range results {
+			full := results[ri][:cap(results[ri])]
+			for j := len(results[ri]); j < len(full); j++ {
+				full[j] = 0xEE
+			}
+			_ = append(results[ri], 0xEE, 0xEE, 0xEE)
+			for oi := range results {
+				if !bytes.Equal(results[oi], wantFull[oi]) {
+					fail(fmt.Sprintf("writing into the spare capacity of the %s (len %d, cap %d) changed the %s", names[ri], len(results[ri]), cap(results[ri]), names[oi]))
+				}
+			}
+			if !bytes.Equal(seed, seedOf(idx)) {
+				fail("writing into the spare capacity of the " + names[ri] + " changed the seed argument")
+			}
+		}
 	}
 }
